@@ -43,8 +43,11 @@ def roundtrip(st, lang, batch, scratch):
         for c in batch:
             roundtrip(st, lang, [c], scratch)
         return
-    conll = TP.render(nbest, 'conll')
     try:
+        try:
+            conll = TP.render(nbest, 'conll')
+        except Exception as e:
+            raise D.DecodeError(f'rendering raised {e!r}')
         crecs = D.decode_conll(conll)
         if len(crecs) != len(batch):
             raise D.DecodeError(f'{len(crecs)} conll records for {len(batch)} trees')
